@@ -143,6 +143,19 @@ def stepLine (s : St) (line : String) : St × String :=
       match nat? rest "p", nat? rest "row", nat? rest "to", nat? rest "sig", nat? rest "dsig" with
       | some p, some row, some to, some sig, some dsig => writeOp s p (.unref row to sig dsig)
       | _, _, _, _, _ => (s, "bad-op")
+    | "unrefs" =>
+      match nat? rest "p", natList? rest "rows", natList? rest "tos", natList? rest "sigs", natList? rest "dsigs" with
+      | some p, some rows, some tos, some sigs, some dsigs =>
+        let n := rows.length
+        if p ≥ s.w.peers.length ∨ tos.length ≠ n ∨ sigs.length ≠ n ∨ dsigs.length ≠ n then (s, "bad-op")
+        else
+          let es : List UnrefEntry := (List.range n).map fun i =>
+            { row := rows.getD i 0, to := tos.getD i 0, sig := sigs.getD i 0, dsig := dsigs.getD i 0 }
+          if !unrefsWellFormed s.w es ∨ s.w.inBatch p then (s, "bad-op")
+          else
+            let (w', r) := s.w.unrefs s.d p es
+            answer s w' r.str
+      | _, _, _, _, _ => (s, "bad-op")
     | "del" =>
       match nat? rest "p", nat? rest "row", nat? rest "dsig" with
       | some p, some row, some dsig => writeOp s p (.del row dsig)
